@@ -1,6 +1,6 @@
 #ifndef VSCHED_H
 #define VSCHED_H
-#define VS_MAXT 32
+#define VS_MAXT 1024
 /* start controlling threads created from now on; reference_mode=1: always continue the running
  * thread (the default schedule, no vx choices); horizon: after that many decisions take the default */
 void vs_begin(int reference_mode, long horizon_points);
